@@ -39,4 +39,12 @@ def main(argv):
 
 
 if __name__ == "__main__":
-    sys.exit(main(sys.argv[1:]))
+    try:
+        rc = main(sys.argv[1:])
+    except Exception:  # noqa: BLE001 - an error of the machinery itself is never a verdict about the repository
+        import traceback
+
+        traceback.print_exc()
+        print("HARNESS-ERROR: the check could not run to a verdict (exit 3 = inconclusive)")
+        rc = 3
+    sys.exit(rc)
